@@ -402,7 +402,7 @@ package consensus
 //@   modifies all
 //@ func (*DPoVP).InsertConfirms
 //@   props C19
-//@   requires dp != nil && !held(dp.chainLock)
+//@   requires dp != nil && dp.validator != nil && dp.confirmer != nil && !held(dp.chainLock)
 //@   assert @call UpdateForkForConfirm#0: held(dp.chainLock)
 //@   ensures !held(dp.chainLock)
 
